@@ -32,6 +32,7 @@ ASSUMPTIONS = [
 Q1 = {"q": [0.01, 0.05, 0.2]}
 Q2 = {"q": [0.003, 0.1]}
 QXY = {"qx": [0.02, -0.05, 0.0], "qy": [0.01, 0.04, -0.08]}
+QXY2 = {"qx": [0.02, -0.05, 0.0], "qy": [0.03, -0.02, 0.05]}      # the same detector columns, another row
 
 
 def universe():
@@ -63,6 +64,13 @@ def universe():
         array={"par": "radius", "values": [35.0, 45.0, 50.0, 60.0, 75.0], "weights": [3.0, 11.0, 27.0, 14.0, 2.0]})
     add("sphere", "sasview", Q2, {"radius": 55.0, "scale": 2.0, "background": 0.1, "sld": 1.0, "sld_solvent": 6.0},
         array={"par": "radius", "values": [40.0, 50.0, 52.0], "weights": [0.5, 0.25, 0.25]})
+    for qs in (QXY, QXY2):
+        add("sphere", "sasview", qs, {"radius": 50.0, "scale": 1.0, "background": 0.0, "sld": 1.0, "sld_solvent": 6.0,
+                                      "radius.width": 0.0})
+        add("cylinder", "sasview", qs, {"radius": 25.0, "length": 180.0, "scale": 1.0, "background": 0.0, "sld": 4.0,
+                                        "sld_solvent": 1.0, "theta": 50.0, "phi": 20.0, "radius.width": 0.0,
+                                        "length.width": 0.0})
+        add("cylinder", "call_kernel", qs, {"radius": 22.0, "length": 150.0, "theta": 35.0, "phi": 60.0})
     add("sphere", "call_kernel", Q1, {"radius": -5.0, "radius_pd": 0.1, "radius_pd_n": 5, "background": 0.25},
         empty_mesh=True)
     # --- cylinder (oriented, many effective-radius modes)
@@ -190,7 +198,7 @@ def histories(draw):
                 step["new_instance"] = True
             steps.append(step)
         elif kind in ("make_kernel", "release_kernel"):
-            qs = draw(st.sampled_from([Q1, Q2, QXY]))
+            qs = draw(st.sampled_from([Q1, Q2, QXY, QXY2]))
             steps.append(dict(op=kind, model=m, **qs))
         elif kind == "clone":
             with_sv = [x for x in chosen if any(s_["op"] == "sasview" for s_ in U[x])] or ["sphere"]
@@ -274,7 +282,9 @@ def check_history(case, rec):
                 if prev_req is None:
                     continue
                 # evaluating an object nobody touched since: the answer is its own last request
-                step = dict(prev_req, q=step.get("q"), clone=False)
+                qkeys = {k_: step[k_] for k_ in ("q", "qx", "qy") if k_ in step}
+                step = {k_: v_ for k_, v_ in prev_req.items() if k_ not in ("q", "qx", "qy")}
+                step.update(qkeys, clone=False)
                 step.pop("noset", None)
                 rec.cls("evaluate-untouched-object")
             else:
